@@ -474,6 +474,38 @@ theorem settleAckState_std (cfg : Cfg) (s : State) (l : Ch) (seq : Seq) (p : Pkt
     simp only [AckWire.appView, Option.getD_some, Bool.not_true, Bool.false_eq_true, ↓reduceIte]
     try rfl
 
+/-! ### any step list with the canonical check in front -/
+
+/-- a step that is neither the application nor the hook fails or leaves the run as it is -/
+theorem mwStep_neutral (cfg : Cfg) (c : Ctl) (l : Ch) (seq : Seq) (p : Pkt) (i : MwIn) (r : MwRun) (st : String × String)
+    (h1 : st.1 ≠ "app") (h2 : st.1 ≠ "hook") :
+    mwStep cfg c l seq p i r st = none ∨ mwStep cfg c l seq p i r st = some r := by
+  unfold mwStep
+  simp only [beq_iff_eq, h1, h2, ↓reduceIte]
+  split
+  · split
+    · exact Or.inl rfl
+    · exact Or.inr rfl
+  · split
+    · split
+      · exact Or.inl rfl
+      · exact Or.inr rfl
+    · exact Or.inr rfl
+
+/-- ANY step list in which a canonical-encoding check whose error is returned stands in front of the application and the
+hook: bytes that are not the canonical encoding never reach either of them -/
+theorem mwFold_canonical_first (cfg : Cfg) (c : Ctl) (l : Ch) (seq : Seq) (p : Pkt) (i : MwIn) (hi : i.canonical = false)
+    (pre post : List (String × String)) (hpre : ∀ st ∈ pre, st.1 ≠ "app" ∧ st.1 ≠ "hook") (r : MwRun) :
+    mwFold cfg c l seq p i (pre ++ ("canonical-ack", "returned") :: post) r = none := by
+  induction pre with
+  | nil => simp (config := { decide := true }) [mwFold, mwStep, hi]
+  | cons st rest ih =>
+    have hst := hpre st List.mem_cons_self
+    simp only [List.cons_append, mwFold]
+    rcases mwStep_neutral cfg c l seq p i r st hst.1 hst.2 with h | h
+    · rw [h]
+    · rw [h]; exact ih (fun x hx => hpre x (List.mem_cons_of_mem _ hx))
+
 /-! ## the whole transition preserves the invariant -/
 
 /-- a processed refund (hook wired): the transfer application's refund, then the hook — or, when the hook's error is
